@@ -55,6 +55,7 @@ var lib = map[string][2]string{
 	"bim2": {"P{% import 'bad' as b %}Q{{ b.m(1) }}", "P{% from 'bad' import m %}Q"},
 	"binc": {"P{{ x }}{% include 'bad' %}Q", "P{% include 'nosuch' %}Q"},
 	"bext": {"{% extends 'bad' %}{% block k %}K{% endblock %}", "{% extends 'nosuch' %}"},
+	"bwth": {"P{% include 'a' with {'v': nofn()} %}Q", "P{% include 'a' with {'v': 1 / 0} only %}Q"},
 	"bmac": {"P{% import 'lib' as l %}{{ l.m(1/0) }}Q", "{% macro f(p) %}{{ p|nofilter }}{% endmacro %}P{{ f(1) }}"},
 	// a partial with its own layout and a sandboxed include, reached through includes and loops
 	"incx": {"IX[{% include 'child' %}|{% include 'sb' %}]", "IX2[{% for i in xs %}{% include 'child' with {'x': i} %}{% endfor %}{% include 'child' only %}]"},
@@ -67,9 +68,9 @@ var lib = map[string][2]string{
 // so that its result does not depend on what else the process has parsed)
 var deps = map[string][]string{
 	"inc": {"a", "b"}, "child": {"base"}, "use": {"lib"}, "sb": {"a"}, "la": {"a"}, "lb": {"base"},
-	"bimp": {"lib", "bad"}, "bim2": {"bad"}, "binc": {"bad"}, "bext": {"bad"}, "bmac": {"lib"}, "incx": {"child", "sb"},
+	"bimp": {"lib", "bad"}, "bim2": {"bad"}, "binc": {"bad"}, "bwth": {"a"}, "bext": {"bad"}, "bmac": {"lib"}, "incx": {"child", "sb"},
 }
-var names = []string{"a", "b", "loop", "inc", "base", "child", "lib", "use", "bad", "sb", "j", "um", "ub", "cs1", "cs2", "tw1", "tw2", "bimp", "bim2", "binc", "bext", "bmac", "incx", "flt", "fltx"}
+var names = []string{"a", "b", "loop", "inc", "base", "child", "lib", "use", "bad", "sb", "j", "um", "ub", "cs1", "cs2", "tw1", "tw2", "bimp", "bim2", "binc", "bext", "bmac", "bwth", "incx", "flt", "fltx"}
 
 // templates served by an ArrayLoader (re-read when the cache is off)
 var loaded = map[string]string{
@@ -171,7 +172,7 @@ func render(e *twig.Engine, n string, c int, to bool) (res string) {
 	return out
 }
 
-var meantToFail = map[string]bool{"bad": true, "um": true, "ub": true, "bimp": true, "bim2": true, "binc": true, "bext": true, "bmac": true, "fltx": true}
+var meantToFail = map[string]bool{"bad": true, "um": true, "ub": true, "bimp": true, "bim2": true, "binc": true, "bext": true, "bmac": true, "bwth": true, "fltx": true}
 
 // ---- pristine oracle: a fresh process whose first and only twig activity is the queried render
 
@@ -318,6 +319,8 @@ func runHistory(seq []op, prefix []int, alts int, sweepCtxs int) execResult {
 	if kept != nil {
 		engs[1].RegisterTemplate("a_alias", kept)
 	}
+	// a second handle: a template with includes, registered on the other engine by the history itself
+	keptInc, _ := engs[0].Load("inc")
 	keptWant := func(c int) string { return expect(&engState{reg: map[string]int{}, cacheOn: true}, "a", c) }
 	renderKept := func(c int) string {
 		if kept == nil {
@@ -371,6 +374,7 @@ func runHistory(seq []op, prefix []int, alts int, sweepCtxs int) execResult {
 			x.End() // the further failure flavours run with default pool answers (cost)
 			render(e, "binc", 0, false)
 			render(e, "bext", 0, false)
+			render(e, "bwth", 0, false)
 			x.Begin()
 		case "renderfail2":
 			render(e, "bimp", 0, false)
@@ -381,6 +385,12 @@ func runHistory(seq []op, prefix []int, alts int, sweepCtxs int) execResult {
 		case "addcustom":
 			addCustom(e)
 			s.custom = true
+		case "regalias":
+			// the OTHER engine registers a template object this engine has cached (what it renders
+			// there is left open; this engine's copy must not notice)
+			if keptInc != nil {
+				e.RegisterTemplate("inc_alias", keptInc)
+			}
 		case "drop":
 			vsync.DropAll()
 		case "cacheoff":
@@ -452,7 +462,7 @@ func alphabet(thorough bool) []op {
 	}
 	a = append(a, op{Kind: "render", Name: "a", Ctx: 1}, op{Kind: "render", Name: "la"}, op{Kind: "renderto", Name: "lb", Ctx: 2})
 	a = append(a, op{Kind: "renderkept"}, op{Kind: "render", Name: "cs2"}, op{Kind: "register", Name: "cs1", V: 1}, op{Kind: "render", Eng: 1, Name: "tw2"})
-	a = append(a, op{Kind: "renderfail2"}, op{Kind: "render", Name: "incx"}, op{Kind: "addcustom", Eng: 1})
+	a = append(a, op{Kind: "renderfail2"}, op{Kind: "render", Name: "incx"}, op{Kind: "addcustom", Eng: 1}, op{Kind: "regalias", Eng: 1})
 	a = append(a, op{Kind: "render", Eng: 1, Name: "child"})
 	for _, n := range []string{"a", "base", "lib"} {
 		a = append(a, op{Kind: "register", Name: n, V: 1})
